@@ -2,14 +2,16 @@
   C09 - codec results never depend on history: cache state, compile order, Pretouch.
   Property theorems only (helper lemmas in Proofs/ConcOrder.lean, Proofs/ConcLoad.lean).
 
-  Carried by the model: the program map for every hash function and insertion order; the name-based
-  result mapping of `loader.Load`; the cache as a history machine keyed by type.
-  Two statements of the property are FALSE on the faithful model; their negations are proved on concrete
-  witnesses (replayed on the real code by the `hist` correspondence, DESIGN §8 #7, #8/#14) and the
-  provable parts are stated as `…_partial` with the missing hypothesis explicit.
+  Carried by the model: the program map for every hash function and insertion order; the POSITION-based
+  result mapping of `loader.Load` and of the pretouch pipelines (parallel slices); the cache as a history
+  machine keyed by the whole request (type, pv).  On this model - the code as it is now - the statements
+  hold at full strength (`load_maps_back` without a hypothesis on names, `history_independence`).
+  The `PreFix.*` theorems document the two defects that were repaired (DESIGN §8 #7, #8/#14; commits
+  9e7dce3, e042f54): the old models with their negation witnesses, so that a return to those shapes has
+  its failing instance on record; the source-shape check of vlib/props/C09.py tells which model applies.
   Not modelled here (tied by correspondence only): the compiler itself - that programs compiled with
   different inline / recursion depths behave alike (`inline_depth_irrelevant` of the design needs the
-  encoder IR core E) is checked by the `hist` preludes against encoding/json.
+  encoder IR core E) is checked by the `phist` preludes against encoding/json.
 -/
 import SonicSpec.Proofs.ConcOrder
 import SonicSpec.Proofs.ConcLoad
@@ -76,90 +78,109 @@ theorem cache_growth_irrelevant (hash : κ → Nat) (m : PMap κ γ) (h : Inv ha
 
 end Table
 
-/-! ### loader.Load maps results back by NAME -/
+/-! ### loader.Load maps results back by POSITION (code as it is now, fix 9e7dce3) -/
 
-/-- if the function names of one batch are pairwise different, `Load` returns for item `i` the entry of
-    item `i` - whatever permutation `sort.Slice` leaves `funcs` in -/
-theorem load_maps_back (text : Nat) (funcs funcs' : List Func) (hp : funcs'.Perm funcs)
+/-- `Load` returns for item `i` the entry of item `i` - for EVERY content the sort may leave in `funcs`
+    and with NO hypothesis on the names (two items may carry the same name) -/
+theorem load_maps_back (text : Nat) (funcs sorted : List Func) (i : Nat) (hi : i < funcs.length) :
+    (loadWith text funcs sorted)[i]? = some (text + funcs[i].entryOff) := by
+  simp [loadWith, hi]
+
+/-- the same for the model's own `load` (offsets taken before the sort) -/
+theorem load_maps_back_sorted (text : Nat) (funcs : List Func) :
+    load text funcs = funcs.map (fun f => text + f.entryOff) := by
+  simp [load, loadWith, List.map_map, Function.comp_def]
+
+/-- `PretouchMany`: whatever order the map iteration yields and whatever the types print as, every type
+    of the batch is cached with the address of ITS OWN machine code (offset = total size of the items
+    before it) - "every distinct Go type is served by a codec compiled for exactly that type, including
+    distinct types that print identically" on the batch path -/
+theorem pretouch_batch_own_code (pfx : String) (text : Nat) (tys : List (Ty × Nat)) :
+    pretouchBatch pfx text tys =
+      (tys.map (·.1)).zip ((offsets (tys.map (·.2)) 0).map (fun off => text + off)) := by
+  unfold pretouchBatch loadMany
+  simp only [load_maps_back_sorted]
+  rw [layout_entries]
+  simp [List.map_map, Function.comp_def]
+
+/-- concrete instance: two distinct types that print identically get two different codes -/
+theorem pretouch_batch_same_name_own_code :
+    pretouchBatch "encode_" 4096 [(⟨1, "pkg.T"⟩, 64), (⟨2, "pkg.T"⟩, 32)]
+      = [(⟨1, "pkg.T"⟩, 4096), (⟨2, "pkg.T"⟩, 4096 + 64)] := by
+  decide
+
+/-! ### regression documentation: the loader that matched results by NAME (before 9e7dce3), and any
+    pipeline that remembers batch positions under the function name -/
+
+/-- with pairwise different names the by-name mapping was right, whatever permutation the sort left -/
+theorem PreFix.load_maps_back_partial (text : Nat) (funcs funcs' : List Func) (hp : funcs'.Perm funcs)
     (hn : (funcs.map (·.name)).Nodup) (i : Nat) (hi : i < funcs.length) :
-    (mapBack text (funcs.map (·.name)) funcs')[i]? = some (some (text + funcs[i].entryOff)) := by
+    (PreFix.mapBack text (funcs.map (·.name)) funcs')[i]? = some (some (text + funcs[i].entryOff)) := by
   rw [mapBack_perm text funcs funcs' hp hn]
   simp [hi]
 
-/-- the same for the model's own `load` (ids taken before the sort, mapping after it) -/
-theorem load_maps_back_sorted (text : Nat) (funcs : List Func) (hn : (funcs.map (·.name)).Nodup) :
-    load text funcs = funcs.map (fun f => some (text + f.entryOff)) :=
-  mapBack_perm text funcs (sortByEntry funcs) (sortByEntry_perm funcs) hn
-
-/-- the hypothesis is forced (DESIGN §8 #7): two items with one name - two distinct Go types whose
-    `String()` coincide, e.g. `pkg.T` from two import paths - BOTH receive the entry of the last one -/
-theorem load_same_name_shares_entry :
-    load 4096 [⟨"encode_pkg.T", 0⟩, ⟨"encode_pkg.T", 64⟩] = [some (4096 + 64), some (4096 + 64)] := by
+/-- the witness: if results are matched by name again, two items with one name - two distinct Go types
+    whose `String()` coincide - BOTH receive the entry of the last one -/
+theorem PreFix.load_same_name_shares_entry :
+    PreFix.load 4096 [⟨"encode_pkg.T", 0⟩, ⟨"encode_pkg.T", 64⟩] = [some (4096 + 64), some (4096 + 64)] := by
   decide
 
-/-- `PretouchMany`: with pairwise different `String()`s every type of the batch is cached with the
-    address of ITS OWN machine code -/
-theorem pretouch_batch_own_code (pfx : String) (text : Nat) (tys : List (Ty × Nat))
-    (hn : (tys.map fun p => pfx ++ p.1.str).Nodup) :
-    pretouchBatch pfx text tys =
-      (tys.map (·.1)).zip ((layout (tys.map fun (t, sz) => { name := pfx ++ t.str, size := sz }) 0).map
-        (fun f => some (text + f.entryOff))) := by
-  unfold pretouchBatch loadMany
-  rw [load_maps_back_sorted]
-  rw [layout_names]
-  simpa [List.map_map, Function.comp_def] using hn
-
-/-- ... and the negation when two distinct types print identically: type 1 is served by the code
-    compiled for type 2 ("every distinct Go type is always served by a codec compiled for exactly that
-    type, including distinct types that print identically" fails on the batch path) -/
-theorem pretouch_batch_same_name_wrong_code :
-    pretouchBatch "encode_" 4096 [(⟨1, "pkg.T"⟩, 64), (⟨2, "pkg.T"⟩, 32)]
+/-- ... so type 1 is served by the code compiled for type 2 -/
+theorem PreFix.pretouch_batch_same_name_wrong_code :
+    PreFix.pretouchBatch "encode_" 4096 [(⟨1, "pkg.T"⟩, 64), (⟨2, "pkg.T"⟩, 32)]
       = [(⟨1, "pkg.T"⟩, some (4096 + 64)), (⟨2, "pkg.T"⟩, some (4096 + 64))] := by
   decide
 
-/-! ### history independence of the cache keyed by type -/
+/-! ### history independence of the cache keyed by the whole request (type, pv) (fix e042f54) -/
 
 section Hist
+variable {τ χ π : Type} [DecidableEq τ] [DecidableEq χ]
+
+/-- FULL history independence: whatever was requested before - any types, any contexts, in any order,
+    any number of times - a request is served by the program compiled for exactly its own (type, context),
+    i.e. by what a fresh process serves it with -/
+theorem history_independence (compile : τ → χ → π) (h₁ h₂ : List (τ × χ)) (r : τ × χ) :
+    servedAfter compile h₁ r = servedAfter compile h₂ r := by
+  rw [servedAfter_eq, servedAfter_eq]
+
+theorem served_by_own_program (compile : τ → χ → π) (h : List (τ × χ)) (r : τ × χ) :
+    servedAfter compile h r = compile r.1 r.2 ∧ servedAfter compile [] r = compile r.1 r.2 :=
+  ⟨servedAfter_eq compile h r, servedAfter_eq compile [] r⟩
+
+end Hist
+
+/-! ### regression documentation: the cache keyed by type only (before e042f54) -/
+
+section HistPre
 variable {τ χ π : Type} [DecidableEq τ]
 
-/-- what the cache really guarantees: the request `(t, x)` is served by the program compiled for the
-    context of the FIRST request for `t` in the process -/
-theorem served_by_first_use (compile : τ → χ → π) (h : List (τ × χ)) (t : τ) (x : χ) :
-    servedAfter compile h (t, x) = compile t ((firstCtx t h).getD x) :=
-  servedAfter_eq compile h t x
+/-- what the type-keyed cache guaranteed: the request `(t, x)` is served by the program compiled for
+    the context of the FIRST request for `t` in the process -/
+theorem PreFix.served_by_first_use (compile : τ → χ → π) (h : List (τ × χ)) (t : τ) (x : χ) :
+    PreFix.servedAfter compile h (t, x) = compile t ((PreFix.firstCtx t h).getD x) :=
+  PreFix.servedAfter_eq compile h t x
 
-/-- `history_independence` - "the program that serves a request does not depend on the requests made
-    before" - is FALSE for a cache keyed by type when the program depends on (type, context):
-    context = pointer-value-ness, `compile 0 true ≠ compile 0 false`, fresh process vs one earlier
-    non-addressable use (DESIGN §8 #8, #14; replayed by the `hist` stream, tag `ptr_recv_marshaler_leaf`) -/
-theorem history_independence_fails :
+/-- the witness: with a cache keyed by type while the program depends on (type, pointer-value-ness),
+    a fresh process and a process that used the type once non-addressably serve different programs -/
+theorem PreFix.history_independence_fails :
     ¬ ∀ (compile : Nat → Bool → Nat) (h₁ h₂ : List (Nat × Bool)) (r : Nat × Bool),
-        servedAfter compile h₁ r = servedAfter compile h₂ r := by
+        PreFix.servedAfter compile h₁ r = PreFix.servedAfter compile h₂ r := by
   intro h
   have := h (fun _ pv => if pv then 1 else 0) [] [(0, false)] (0, true)
   revert this
   decide
 
-/-- the provable part: histories cannot be told apart when the compiled program does not depend on
-    the context (all decoder programs; every encoder type without a pointer-receiver marshaler below
-    it), or when the first use of the type has the same context in both histories -/
-theorem history_independence_partial (compile : τ → χ → π) (h₁ h₂ : List (τ × χ)) (t : τ) (x : χ)
+/-- the part that held before the fix: context-free compilers, or equal first contexts -/
+theorem PreFix.history_independence_partial (compile : τ → χ → π) (h₁ h₂ : List (τ × χ)) (t : τ) (x : χ)
     (hyp : (∀ c c', compile t c = compile t c') ∨
-           (firstCtx t h₁).getD x = (firstCtx t h₂).getD x) :
-    servedAfter compile h₁ (t, x) = servedAfter compile h₂ (t, x) := by
-  rw [served_by_first_use, served_by_first_use]
+           (PreFix.firstCtx t h₁).getD x = (PreFix.firstCtx t h₂).getD x) :
+    PreFix.servedAfter compile h₁ (t, x) = PreFix.servedAfter compile h₂ (t, x) := by
+  rw [PreFix.served_by_first_use, PreFix.served_by_first_use]
   rcases hyp with hyp | hyp
   · exact hyp _ _
   · rw [hyp]
 
-/-- in particular, with a context-free compiler every request is served by the program compiled for
-    exactly its own type, after every history -/
-theorem history_independence_ctxfree (compile : τ → χ → π) (hc : ∀ t c c', compile t c = compile t c')
-    (h : List (τ × χ)) (t : τ) (x : χ) : servedAfter compile h (t, x) = compile t x := by
-  rw [served_by_first_use]
-  exact hc t _ _
-
-end Hist
+end HistPre
 
 /-! ### non-vacuity -/
 
@@ -171,6 +192,10 @@ example :
   decide
 
 /-- three differently named items, given in an order that the sort changes: mapped back correctly -/
-example : load 100 [⟨"c", 8⟩, ⟨"a", 0⟩, ⟨"b", 4⟩] = [some 108, some 100, some 104] := by decide
+example : load 100 [⟨"c", 8⟩, ⟨"a", 0⟩, ⟨"c", 4⟩] = [108, 100, 104] := by decide
+
+/-- the current cache on the old witness history: same program with and without the earlier use -/
+example : servedAfter (fun (_ : Nat) (pv : Bool) => if pv then 1 else 0) [(0, false)] (0, true) = 1 ∧
+    servedAfter (fun (_ : Nat) (pv : Bool) => if pv then 1 else 0) [] (0, true) = 1 := by decide
 
 end SonicSpec.Props.C09
